@@ -33,13 +33,13 @@ func init() {
 		}})
 	register(&core.Rule{ID: "C08.4", Prop: "C08", MinSites: 3,
 		Desc: "readUDP: one Recvfrom and (on success) exactly one OnTraffic per invocation, no write into an inbound ring, per-datagram conn released after the callback",
-		Run: runC08_4})
+		Run:  runC08_4})
 	register(&core.Rule{ID: "C08.5", Prop: "C08", MinSites: 5,
 		Desc: "sendTo: exactly one Send/Sendto per path with (c.fd, buf unsliced) and the explicit address else c.remote; Write routes datagram conns to sendTo(p, nil); SendTo passes the converted address",
-		Run: runC08_5})
+		Run:  runC08_5})
 	register(&core.Rule{ID: "C08.7", Prop: "C08", MinSites: 1,
 		Desc: "createListeners switches edge-triggered I/O off whenever a UDP address is present, after the ET normalisation",
-		Run: runC08_7})
+		Run:  runC08_7})
 }
 
 func runC08_4(c *core.Ctx) {
